@@ -77,12 +77,6 @@ Proof.
 Qed.
 Print Assumptions C17_single_spec_partial.
 
-Lemma exn_eqb_eq : forall a c, exn_eqb a c = true -> a = c.
-Proof.
-  induction a as [|x a IH]; intros [|y c] H; cbn in H; try discriminate; [reflexivity|].
-  apply andb_true_iff in H as [H1 H2]. apply Nat.eqb_eq in H1. subst. f_equal. now apply IH.
-Qed.
-
 (* result faithful: the child reports and nobody kills it => exactly the callee's outcome *)
 Theorem C17_single_faithful_partial : forall b sched f,
   returns_envelope b = false -> callee_reports b = true ->
@@ -92,22 +86,7 @@ Theorem C17_single_faithful_partial : forall b sched f,
   | _ => if b_isa b StopIterationC then f = FRaise (XCls RuntimeErrorC) else f = FRaise XCallee
   end.
 Proof.
-  intros b sched f He Hrep Hf Hk.
-  assert (Hd : p_done (run1 b sched) = true) by (unfold p_done; now rewrite Hf).
-  pose proof (C17_single_spec_partial b sched He Hd) as Hs.
-  unfold spec_ok in Hs. rewrite Hf, Hk in Hs. apply andb_true_iff in Hs as [Hs _].
-  unfold outcome_ok in Hs. rewrite andb_false_l, orb_false_r in Hs.
-  unfold demanded in Hs. rewrite Hrep in Hs.
-  destruct (b_out b).
-  - destruct f as [| |x]; try discriminate; reflexivity.
-  - destruct (b_isa b StopIterationC).
-    + destruct f as [| |[|c|]]; try discriminate. cbn in Hs. f_equal. f_equal.
-      now apply exn_eqb_eq.
-    + destruct f as [| |[|c|]]; try discriminate; reflexivity.
-  - destruct (b_isa b StopIterationC).
-    + destruct f as [| |[|c|]]; try discriminate. cbn in Hs. f_equal. f_equal.
-      now apply exn_eqb_eq.
-    + destruct f as [| |[|c|]]; try discriminate; reflexivity.
+  intros b sched f. apply (faithful_exact P C programs_check). apply lrun_reach. constructor.
 Qed.
 Print Assumptions C17_single_faithful_partial.
 
@@ -118,10 +97,7 @@ Theorem C17_single_child_death_outcome : forall b sched f,
   p_stat (ps (run1 b sched)) = PSDone f ->
   model_final b f = true \/ (c_killed (cs (run1 b sched)) = true /\ is_cpe f = true).
 Proof.
-  intros b sched f Hf.
-  pose proof (done_exact P C C17_programs_check b (run1 b sched) (lrun_reach P C b sched linit (lr_init P C b))) as H.
-  unfold f_exact in H. rewrite Hf in H. apply orb_true_iff in H as [H|H]; [now left|].
-  right. now apply andb_true_iff in H.
+  intros b sched f. apply (death_outcome P C programs_check). apply lrun_reach. constructor.
 Qed.
 Print Assumptions C17_single_child_death_outcome.
 
@@ -137,20 +113,7 @@ Proof.
   split; [|split].
   - apply (effective_bounded P C C17_programs_check). constructor.
   - apply (never_blocked_forever P C C17_programs_check). exact Hr.
-  - destruct (can_finish P C C17_programs_check b (measure P C (run1 b sched)) (run1 b sched) Hr (le_n _))
-      as [ext [Hl Hd]].
-    exists ext. split.
-    + assert (Hm : measure P C (run1 b sched) <= measure P C linit).
-      { clear - Hr. unfold run1.
-        assert (G : forall sched s, lreach P C b s -> measure P C (lrun P C b sched s) <= measure P C s).
-        { induction sched0 as [|c sched0 IH]; intros s Hs; [apply le_n|].
-          change (lrun P C b (c :: sched0) s) with (lrun P C b sched0 (lstep_skip P C b c s)). unfold lstep_skip.
-          destruct (lstep P C b 0 c s) eqn:E; [|now apply IH].
-          pose proof (measure_decreases P C C17_programs_check b s c l Hs E).
-          specialize (IH l (lr_step P C b s c l Hs E)). lia. }
-        apply G. constructor. }
-      lia.
-    + unfold run1, lrun in *. now rewrite fold_left_app.
+  - exact (finish_after P C programs_check b sched).
 Qed.
 Print Assumptions C17_single_terminates_all_crash_points.
 
